@@ -126,22 +126,17 @@ def run(chk):
     rows = [x for x in rows if x.get('k') == 'misc']
     chk.extra['small_world'] = {'configurations': len(rows)}
     chk.exhaustive = True
-    obs = []
-    if pid == 'C16':
-        for part in core.parallel_map(_c16_small, [(row, pid, tier, i) for i, row in enumerate(rows)], chunksize=8):
-            obs += part
-        wide = _c16_wide
-    else:
-        idxd = list(enumerate(rows))
-        if tier == 'quick':
-            idxd = idxd[chk.seed % 4::4]        # quick: a quarter of the (format, modes, scale, bias) configurations, rotating with the seed
-            chk.exhaustive = False
-            chk.extra['small_world']['executed_configurations'] = len(idxd)
-        chunks = [idxd[i::core.NPROC * 4] for i in range(core.NPROC * 4)]
-        for part in core.parallel_map(_c17_small, [(c, pid, tier) for c in chunks if c]):
-            obs += part
-        wide = _c17_wide
     n = (480 if tier == 'quick' else 8000)
-    for part in core.parallel_map(wide, [(chk.seed * 1000 + i, pid, n // core.NPROC + 1) for i in range(core.NPROC)]):
-        obs += part
-    return obs
+    per = max(1, n // (core.NPROC * (1 if tier == 'quick' else 8)))
+    if pid == 'C16':
+        wjobs = [(chk.seed * 1000 + i, pid, per) for i in range(n // per)]
+        return core.stream(_c16_small, [(row, pid, tier, i) for i, row in enumerate(rows)], _c16_wide, wjobs, tier, step=400, chunksize=8)
+    idxd = list(enumerate(rows))
+    if tier == 'quick':
+        idxd = idxd[chk.seed % 4::4]        # quick: a quarter of the (format, modes, scale, bias) configurations, rotating with the seed
+        chk.exhaustive = False
+        chk.extra['small_world']['executed_configurations'] = len(idxd)
+    nchunk = core.NPROC * (4 if tier == 'quick' else 64)
+    chunks = [(idxd[i::nchunk], pid, tier) for i in range(nchunk) if idxd[i::nchunk]]
+    wjobs = [(chk.seed * 1000 + i, pid, per) for i in range(n // per)]
+    return core.stream(_c17_small, chunks, _c17_wide, wjobs, tier, step=core.NPROC * 2, chunksize=1)
